@@ -301,7 +301,7 @@ def match_known(obl, known, prop):
     for k in known.get('findings', []):
         if k.get('status', 'open') != 'open' or k.get('property') != prop:
             continue
-        if k.get('obligation') == obl.id:
+        if k.get('obligation') in (obl.id, obl.id.replace('.N.', '.K.')):
             sig = k.get('signature')
             if sig and sig not in obl.detail:
                 continue
